@@ -35,7 +35,8 @@ CONSTANTS
   RepSeqs,     \* REP lists offered to commitContainerListUpdate
   Msgs,        \* messages
   SigAlphabet, \* signatures the exhaustive configurations build matrices from
-  MaxSigs,     \* at most this many signatures per vector / vectors per matrix (exhaustive configurations)
+  MaxSigs,     \* at most this many signatures per vector (exhaustive configurations)
+  MaxMV,       \* at most this many vectors per matrix (exhaustive configurations)
   SignerSets,
   MaxLen,      \* exploration bound on the length of a vector
   Dev          \* deviation switches: "DupSig" = one member's signatures are counted as often as they are repeated
@@ -155,7 +156,7 @@ Init ==
 
 \* signature matrices of the exhaustive configurations
 SeqsUpTo(X, k) == UNION {[1..j -> X] : j \in 0..k}
-Matrices == SeqsUpTo(SeqsUpTo(SigAlphabet, MaxSigs), MaxSigs)
+Matrices == SeqsUpTo(SeqsUpTo(SigAlphabet, MaxSigs), MaxMV)
 
 NextOf(P(_), PS(_), PM(_)) ==
   /\ \/ \E S \in PS(SignerSets), c \in P(Cids), v \in P(Vecs), b \in P(Batches), bk \in P({FALSE, FALSE, TRUE}) :
@@ -199,11 +200,12 @@ Signers(g, e, i) == {k \in Members(g, e.c, i - 1) : \E j \in 1..Len(e.sigs[i]) :
 C14_Sound(g, e) ==
   Accepted(e) => \A i \in 1..Len(g.reps[e.c]) : /\ i <= Len(e.sigs)
                                                 /\ Cardinality(Signers(g, e, i)) >= g.reps[e.c][i]
-\* deviation tag: enough valid member signatures, but not from enough distinct members
+\* deviation tag: every vector has enough valid member signatures, but some not from enough distinct members
 ValidSigs(g, e, i) == Cardinality({j \in 1..Len(e.sigs[i]) : \E k \in Members(g, e.c, i - 1) : SigValid(e.sigs[i][j], k, e.m)})
 DupSigner(g, e) ==
-  Accepted(e) /\ \E i \in 1..Len(g.reps[e.c]) : /\ i <= Len(e.sigs)
-                                                 /\ Cardinality(Signers(g, e, i)) < g.reps[e.c][i]
-                                                 /\ ValidSigs(g, e, i) >= g.reps[e.c][i]
+  /\ Accepted(e) /\ ~C14_Sound(g, e)
+  /\ \A i \in 1..Len(g.reps[e.c]) : /\ i <= Len(e.sigs)
+                                     /\ \/ Cardinality(Signers(g, e, i)) >= g.reps[e.c][i]
+                                        \/ ValidSigs(g, e, i) >= g.reps[e.c][i]
 
 =============================================================================
